@@ -580,5 +580,37 @@ pub fn sweep_cases(n: usize) -> Vec<Case> {
             }
         }
     }
+    for &start in &starts {
+        for size in 0..=n {
+            for (kind, at) in [(0usize, 0u32), (2, 0), (2, 1), (2, 2)] {
+                v.push(Case { op: "clone".into(), n, m: 0, start, size, a: 0, b: 0, start2: 0, size2: 0, kind, at });
+            }
+        }
+    }
+    for a in 0..=2 * n + 1 {
+        for (kind, at) in [(0usize, 0u32), (4, 0), (4, 1), (4, 3), (1, 0), (1, 1)] {
+            v.push(Case { op: "from_iter".into(), n, m: 0, start: 0, size: 0, a, b: 0, start2: 0, size2: 0, kind, at });
+        }
+    }
+    for op in ["swap", "range", "range_mut", "drain_new"] {
+        for &start in &starts {
+            for size in 0..=n {
+                for a in 0..=n + 1 {
+                    for b in 0..=n + 1 {
+                        v.push(Case { op: op.into(), n, m: 0, start, size, a, b, start2: 0, size2: 0, kind: 0, at: 0 });
+                    }
+                }
+            }
+        }
+    }
+    for op in ["index", "index_mut"] {
+        for &start in &starts {
+            for size in 0..=n {
+                for a in 0..=n + 1 {
+                    v.push(Case { op: op.into(), n, m: 0, start, size, a, b: 0, start2: 0, size2: 0, kind: 0, at: 0 });
+                }
+            }
+        }
+    }
     v
 }
